@@ -93,10 +93,12 @@ def compare_c01(proj, p, sc, exp):
 
 def _job_trace(arg):
     """code -> spec: run a pack of random scenarios, return one trace per scenario."""
-    pack, estimator, seed = arg
+    pack, estimator, seed, kw = arg
+    kw = dict(kw)
+    pis = kw.pop("pis", PIS)
     try:
-        c, res, meta, _ = ledger.run_pack(pack, estimator, seed, pis=PIS)
-        return ("ok", ledger.trace_of(pack, res, meta, estimator, PIS))
+        c, res, meta, _ = ledger.run_pack(pack, estimator, seed, pis=pis, **kw)
+        return ("ok", ledger.trace_of(pack, res, meta, estimator, pis))
     except Exception as e:  # noqa: BLE001
         return (
             "exc",
@@ -176,7 +178,7 @@ def replay_exported(run, scens, n_sample, seed, estimators=ESTIMATORS, pack_size
     return len(scens)
 
 
-def random_traces(run, n_runs, seed, units=(4, 12), pack_size=6, allow_mismatch=True, estimators=ESTIMATORS):
+def random_traces(run, n_runs, seed, units=(4, 12), pack_size=6, allow_mismatch=True, estimators=ESTIMATORS, outliers=False):
     rnd = random.Random(seed)
     jobs = []
     for n in range(n_runs):
@@ -187,7 +189,17 @@ def random_traces(run, n_runs, seed, units=(4, 12), pack_size=6, allow_mismatch=
             ledger.random_scenario(rnd, rnd.randint(*units), policy, off, levels, allow_mismatch=allow_mismatch)
             for _ in range(pack_size)
         ]
-        jobs.append((pack, estimators[n % len(estimators)], seed + n))
+        kw = {}
+        if outliers:
+            # outlier models on/off, total number of reporting expected units around the threshold of 20
+            opt_t, opt_m = rnd.random() < 0.8, rnd.random() < 0.7
+            for sc in pack:
+                sc["optT"], sc["optM"] = opt_t, opt_m
+            n_rep = sum(1 for sc in pack for u in sc["units"] if ledger._rep_expected(sc, u))
+            target = rnd.choice([19, 20, 21, 22, 30, 45])
+            kw["ballast_rep"] = max(10, target - n_rep)
+            kw["pis"] = (0.7,)
+        jobs.append((pack, estimators[n % len(estimators)], seed + n, kw))
     results = common.pool().map(_job_trace, jobs, chunksize=1)
     traces = []
     for job, (status, val) in zip(jobs, results):
@@ -258,3 +270,163 @@ def c01(tier, seed):
             run.witness("classification_level_with_unexpected_unit")
     validate_ledger_traces(run, traces, "Trace_Ledger_C01.cfg")
     run.finish(require_witnesses=["exported_scenarios", "trace_with_unexpected_unit", "classification_level_with_unexpected_unit"])
+
+
+# ---------------------------------------------------------------------------------------------------------------
+# C02
+
+
+def _witness_traces(run, traces):
+    for t in traces:
+        est = t["sc"]["estimator"]
+        for lv, rows in t["obs"]["tables"].items():
+            for r in rows:
+                if est != "bootstrap" and r["pred"] > r["counted"]:
+                    run.witness(f"group_with_prediction_above_counted_{est}")
+        for u, o in zip(t["sc"]["units"], t["obs"]["utable"]):
+            if o.get("present") and o["reporting"] == 0 and o["cat"] == "expected" and est != "bootstrap":
+                if o["votes"] > 0 and o["pred"] == o["votes"]:
+                    run.witness("unit_prediction_at_floor")
+                if o["votes"] > 0 and o["lower"] and o["lower"][0] == o["votes"]:
+                    run.witness("unit_lower_bound_at_floor")
+                if o["upper"] and o["upper"][-1] > o["pred"]:
+                    run.witness("unit_interval_nondegenerate")
+
+
+def c02(tier, seed):
+    run = report.Run("C02", tier, seed)
+    run.assumptions += [
+        "unit-level predictions and bounds are inputs of the aggregation model (real regression output in traces, free small integers in TLC)",
+        "bootstrap identities compared in thousandths with slack (#units + 1) for rounding of the logged values; no race calls in these runs (C07 covers calls)",
+        "gaussian bounds are not sums of unit bounds (not claimed by the property); their row alignment is covered through the floor/finality clauses of C03",
+    ]
+    common.mc(run, "MC_Ledger", "MC_Ledger_outputs.cfg", timeout=1500)
+    n = 120 if tier == "quick" else 900
+    traces = random_traces(run, n, seed + 21, allow_mismatch=False)
+    _witness_traces(run, traces)
+    for t in traces:
+        run.witness("trace_" + t["sc"]["estimator"])
+        lv = t["sc"]["levels"]
+        kinds = {u["kind"] for u in t["sc"]["units"]}
+        if "county_fips" in lv and kinds & {"unexpRep", "unexpNon"} and kinds & {"part", "none0"}:
+            run.witness("county_level_with_unexpected_and_nonreporting_units")
+    validate_ledger_traces(run, traces, "Trace_Ledger_C02.cfg")
+    run.finish(
+        require_witnesses=[
+            "trace_nonparametric",
+            "trace_gaussian",
+            "trace_bootstrap",
+            "county_level_with_unexpected_and_nonreporting_units",
+            "group_with_prediction_above_counted_nonparametric",
+        ]
+    )
+
+
+# ---------------------------------------------------------------------------------------------------------------
+# C03
+
+
+def c03(tier, seed):
+    run = report.Run("C03", tier, seed)
+    run.assumptions += [
+        "floors are observed at the outputs (no hook on the raw regression values): a removed floor is detected whenever a raw value falls below the counted votes in some recorded run; the witnesses 'unit_prediction_at_floor' / 'unit_lower_bound_at_floor' show such cases occurred",
+    ]
+    common.mc(run, "MC_Ledger", "MC_Ledger_outputs.cfg", timeout=1500)
+    n = 45 if tier == "quick" else 450
+    traces = random_traces(run, n, seed + 31, allow_mismatch=False)
+    _witness_traces(run, traces)
+    # fully reporting elections: every group has a zero-width interval at its counted votes
+    full = []
+    rnd = random.Random(seed + 33)
+    jobs = []
+    for k in range(6 if tier == "quick" else 40):
+        pack = []
+        policy = rnd.choice(["drop", "zero"])
+        for _ in range(6):
+            sc = ledger.random_scenario(rnd, rnd.randint(3, 9), policy, False, ledger.LEVEL_LISTS[1], p_weird=0.3)
+            for i, u in enumerate(sc["units"]):
+                if u["kind"] in ("part", "none0", "blkNon", "zeroNon", "unexpNon", "absent"):
+                    sc["units"][i] = ledger.mk_unit(i + 1, "rep", u["bstate"] if u["bstate"] != ledger.NA else "S1", "c1", "k1", "d1", "c1", "d1", 4 * rnd.randrange(1, 300))
+            pack.append(sc)
+        jobs.append((pack, ESTIMATORS[k % 2], seed + 40 + k, {"ballast_non": 0}))
+    for (status, val), job in zip(common.pool().map(_job_trace, jobs, chunksize=1), jobs):
+        if status == "ok":
+            full.extend(val)
+            run.witness("fully_reporting_run")
+        else:
+            run.violation("run_raised", {k: val[k] for k in ("clause", "estimator", "policy", "exc")}, val)
+    validate_ledger_traces(run, traces + full, "Trace_Ledger_C03.cfg")
+    run.finish(
+        require_witnesses=["unit_prediction_at_floor", "unit_lower_bound_at_floor", "unit_interval_nondegenerate", "fully_reporting_run"]
+    )
+
+
+# ---------------------------------------------------------------------------------------------------------------
+# C09
+
+
+def c09(tier, seed):
+    from harness import eligibility
+
+    run = report.Run("C09", tier, seed)
+    run.assumptions += [
+        "the outlier models' own flags are oracle inputs (observed by wrapping _fit_outlier_detection_model); the spec decides when they are consulted and how a flag is used",
+        "numeric boundary scenarios are replayed at component level (Estimandizer + CombinedDataHandler.get_units, the client's own call sequence); category placement end-to-end is checked on recorded client runs",
+    ]
+    res = tlc.run_tlc("MC_Eligibility", "MC_Eligibility_n1.cfg", workers=1, timeout=900, keep_stdout=False)
+    run.add_tlc("MC_Eligibility_n1 (exhaustive, exported)", res)
+    if res.violation:
+        run.violation(f"tlc:{res.violation}", {"model": "MC_Eligibility_n1"}, {"trace": res.error_trace[:100]})
+    scens = [v for t, v in res.printed if t == "SCEN"]
+    if tier == "thorough":
+        common.mc(run, "MC_Eligibility", "MC_Eligibility_n2.cfg", timeout=1800)
+    groups = {}
+    for s in scens:
+        sc = s["sc"]
+        k = (sc["policy"], sc["thr"], sc["limits"]["loN"], sc["limits"]["loD"], sc["isMargin"])
+        groups.setdefault(k, []).append(s)
+    jobs = []
+    rnd = random.Random(seed)
+    for k in sorted(groups, key=str):
+        g = groups[k]
+        rnd.shuffle(g)
+        for i in range(0, len(g), 60):
+            jobs.append(([s["sc"] for s in g[i : i + 60]], [s["expect"] for s in g[i : i + 60]]))
+    results = common.pool().map(eligibility.job, jobs, chunksize=4)
+    for job, bads in zip(jobs, results):
+        run.cov["scenarios_replayed_into_impl"] += len(job[0])
+        for b in bads:
+            run.violation(b["clause"], {k: b[k] for k in ("clause", "policy", "isMargin") if k in b}, b)
+    run.cov["exhaustive"] = True
+    for s in scens:
+        n = s["sc"]["units"][0]["num"]
+        if s["sc"]["units"][0]["tf"][0] * s["sc"]["limits"]["loD"] == s["sc"]["limits"]["loN"] * s["sc"]["units"][0]["tf"][1] and n["pres"] == "both":
+            run.witness("turnout_factor_exactly_at_lower_limit")
+        if n["pev"] == s["sc"]["thr"]:
+            run.witness("expected_vote_exactly_at_threshold")
+        if s["sc"]["units"][0]["bweights"] == 0 and n["pres"] != "feedOnly":
+            run.witness("zero_denominator")
+    if scens:
+        run.sample({"numeric_scenario": scens[len(scens) // 2]})
+    # recorded client runs: categories end-to-end, outlier models on, unit counts around the threshold of 20
+    traces = random_traces(run, 30 if tier == "quick" else 300, seed + 51, allow_mismatch=False, outliers=True, pack_size=3, units=(3, 8))
+    for t in traces:
+        if t["obs"]["calledT"]:
+            run.witness("turnout_outlier_model_consulted")
+        if t["obs"]["calledM"]:
+            run.witness("margin_outlier_model_consulted")
+        if not t["obs"]["calledT"] and t["sc"]["optT"]:
+            run.witness("outlier_model_on_but_too_few_units")
+        if any(u["outlierT"] or u["outlierM"] for u in t["sc"]["units"]):
+            run.witness("scenario_unit_flagged_by_outlier_model")
+    validate_ledger_traces(run, traces, "Trace_Ledger_C09.cfg")
+    run.finish(
+        require_witnesses=[
+            "turnout_factor_exactly_at_lower_limit",
+            "expected_vote_exactly_at_threshold",
+            "zero_denominator",
+            "turnout_outlier_model_consulted",
+            "margin_outlier_model_consulted",
+            "outlier_model_on_but_too_few_units",
+        ]
+    )
